@@ -755,7 +755,20 @@ fn check_equivalence(rep: &mut Report, rng: &mut Rng, idx: u64) {
             rep.violation("C14:formats-disagree:component-fingerprint", json!({"document": doc_for_report, "formats": [outcomes[0].0, f], "differences": diff}));
             return;
         }
-        if o.lines != outcomes[0].1.lines || o.files != outcomes[0].1.files {
+        // file layouts are only comparable where the encoded size is deterministic (the default pattern and the
+        // JSON encoder print a timestamp whose length varies)
+        let layout = |o: &Outcome| -> BTreeMap<String, BTreeMap<String, usize>> {
+            o.files.iter().filter(|(name, _)| {
+                l.apps.iter().find(|a| &a.name == *name).map(|a| matches!(a.enc, Enc::Pattern { pattern: Some(_), .. })).unwrap_or(false)
+            }).map(|(k, v)| (k.clone(), v.clone())).collect()
+        };
+        // ... and so is the set of records a rolling appender still retains
+        let retained = |o: &Outcome| -> BTreeMap<String, Vec<Triple>> {
+            o.lines.iter().filter(|(name, _)| {
+                l.apps.iter().find(|a| &a.name == *name).map(|a| !matches!(a.kind, Kind::Rolling { .. }) || matches!(a.enc, Enc::Pattern { pattern: Some(_), .. })).unwrap_or(false)
+            }).map(|(k, v)| (k.clone(), v.clone())).collect()
+        };
+        if retained(o) != retained(&outcomes[0].1) || layout(o) != layout(&outcomes[0].1) {
             rep.violation("C14:formats-disagree:behaviour", json!({"document": doc_for_report, "formats": [outcomes[0].0, f]}));
             return;
         }
